@@ -26,8 +26,9 @@ var verifErrNotExist = errors.New("file does not exist")
 func verifIsNotExist(err error) bool { return err == verifErrNotExist }
 
 type verifFileData struct {
-	name    string
-	exists  bool
+	name     string
+	unlinked bool // removed from the directory: the name is free again, handles opened before still reach this data
+	exists   bool
 	v       []byte // volatile image (what a reader in the same process sees)
 	d       []byte // durable image (as of the last Sync)
 	dExists bool
@@ -46,6 +47,7 @@ type verifFileSystem struct {
 	// snapshot taken by mark()
 	baseV, baseD           [][]byte
 	baseExists, baseDExist []bool
+	baseUnlinked           []bool
 	writes                 int
 }
 
@@ -53,7 +55,7 @@ var vfs = &verifFileSystem{}
 
 func (fs *verifFileSystem) lookup(name string) *verifFileData {
 	for _, f := range fs.files {
-		if f.name == name {
+		if f.name == name && !f.unlinked {
 			return f
 		}
 	}
@@ -97,8 +99,9 @@ func verifRemove(name string) error {
 	if !f.exists {
 		return verifErrNotExist
 	}
-	f.exists = false
-	f.v = nil
+	// POSIX unlink: the directory entry goes, the data stays for handles that are still open; a file created under
+	// the same name afterwards is a different file
+	f.exists, f.unlinked = false, true
 	f.dExists, f.d = false, nil
 	vfs.journal = append(vfs.journal, verifEffect{kind: 'r', file: f})
 	return nil
@@ -179,12 +182,13 @@ func (f *verifFile) Close() error {
 // mark remembers the present state; effects are counted from here.
 func (fs *verifFileSystem) mark() {
 	fs.journal = nil
-	fs.baseV, fs.baseD, fs.baseExists, fs.baseDExist = nil, nil, nil, nil
+	fs.baseV, fs.baseD, fs.baseExists, fs.baseDExist, fs.baseUnlinked = nil, nil, nil, nil, nil
 	for _, f := range fs.files {
 		fs.baseV = append(fs.baseV, append([]byte{}, f.v...))
 		fs.baseD = append(fs.baseD, append([]byte{}, f.d...))
 		fs.baseExists = append(fs.baseExists, f.exists)
 		fs.baseDExist = append(fs.baseDExist, f.dExists)
+		fs.baseUnlinked = append(fs.baseUnlinked, f.unlinked)
 	}
 }
 
@@ -205,9 +209,9 @@ func (fs *verifFileSystem) crash(i, cut int, powerLoss bool) {
 	for k, f := range fs.files {
 		if k < nBase {
 			f.v, f.d = append([]byte{}, fs.baseV[k]...), append([]byte{}, fs.baseD[k]...)
-			f.exists, f.dExists = fs.baseExists[k], fs.baseDExist[k]
+			f.exists, f.dExists, f.unlinked = fs.baseExists[k], fs.baseDExist[k], fs.baseUnlinked[k]
 		} else {
-			f.v, f.d, f.exists, f.dExists = nil, nil, false, false
+			f.v, f.d, f.exists, f.dExists, f.unlinked = nil, nil, false, false, false
 		}
 	}
 	apply := func(e verifEffect, n int) {
@@ -218,7 +222,7 @@ func (fs *verifFileSystem) crash(i, cut int, powerLoss bool) {
 			// directory entries are treated as immediately durable (stated assumption)
 			f.dExists = true
 		case 'r':
-			f.exists, f.v = false, nil
+			f.exists, f.unlinked = false, true
 			f.dExists, f.d = false, nil
 		case 'w':
 			end := e.off + n
